@@ -402,8 +402,11 @@ def _variants(tree) -> Iterator[list]:
 
 
 def corpus() -> list[dict]:
-    def c(lines, ext=(), ext_last=False):
-        return {"prog": list(lines), "ext": list(ext), "ext_last": ext_last}
+    def c(lines, ext=(), ext_last=False, futs=None):
+        d = {"prog": list(lines), "ext": list(ext), "ext_last": ext_last}
+        if futs is not None:
+            d["futs"] = [list(f) for f in futs]
+        return d
 
     cases = [
         # the scenarios of the functional test-suite that carry the semantics
@@ -449,5 +452,27 @@ def corpus() -> list[dict]:
         c(["scope m 2 0", "group", "child", "sleep 9", "endchild", "child", "scope t 1 0", "sleep 9", "endscope", "endchild",
            "sleep 9", "endgroup", "endscope", "yield"]),
         c(["group", "child", "shield", "sleep 3", "endshield", "yield", "endchild", "sleep 9", "endgroup"], [1]),
+        # one-shot cancellation + FAILURE of what the shielded coroutine awaits in the same loop turn (either order),
+        # the error handled outside / inside the shield, then further checkpoints: the postponed cancel must be delivered
+        c(["trye", "shield", "fwait 0", "endshield", "endtrye", "sleep 2", "yield"], [3], futs=[(3, "err", True)]),
+        c(["trye", "shield", "fwait 0", "endshield", "endtrye", "sleep 2", "yield"], [3], futs=[(3, "err", False)]),
+        c(["shield", "trye", "fwait 0", "endtrye", "sleep 1", "endshield", "sleep 2", "yield"], [3], futs=[(3, "err", False)]),
+        c(["shield", "trye", "fwait 0", "endtrye", "sleep 1", "endshield", "sleep 2", "yield"], [3], True, futs=[(3, "err", True)]),
+        c(["shield", "trye", "fwait 0", "endtrye", "sleep 1", "endshield", "sleep 2", "yield"], [3], futs=[(4, "err", False)]),
+        c(["shield", "fwait 0", "sleep 1", "endshield", "sleep 2", "yield"], [3], futs=[(3, "ok", False)]),
+        c(["scope m inf 0", "trye", "shield", "shield", "fwait 0", "endshield", "endshield", "endtrye", "yield", "endscope",
+           "yield"], [2], futs=[(2, "err", True)]),
+        # the same with library primitives only: the body of a task group waits for its failing child under
+        # ignore_cancellation (the group cancels its host and join() fails in one loop turn)
+        c(["group", "child", "sleep 2", "fail", "endchild", "trye", "shield", "join 0", "endshield", "endtrye", "sleep 3",
+           "endgroup", "yield"]),
+        c(["group", "child", "fail", "endchild", "shield", "trye", "join 0", "endtrye", "endshield", "yield", "endgroup"]),
+        c(["group", "child", "scope t 1 0", "sleep 9", "endscope", "endchild", "child", "sleep 1", "endchild", "shield",
+           "join 1", "join 0", "endshield", "yield", "endgroup"]),
+        # open finding, task parked in a task group's join inside the shielded section (not at a shielded operation)
+        c(["shield", "scope m 0 0", "group", "child", "syield", "endchild", "endgroup", "endscope", "endshield", "yield"], [0]),
+        # open finding, the postponed cancel carried over into a second shielded section with no checkpoint in between
+        c(["scope m 9 0", "trye", "shield", "fwait 0", "sleep 3", "endshield", "endtrye", "shield", "sleep 3", "endshield",
+           "endscope", "sleep 0", "yield"], [4], True, futs=[(5, "err", False)]),
     ]
     return cases
